@@ -27,6 +27,7 @@ import (
 	"github.com/buildbarn/bb-storage/pkg/blobstore/slicing"
 	"github.com/buildbarn/bb-storage/pkg/clock"
 	"github.com/buildbarn/bb-storage/pkg/digest"
+	"github.com/buildbarn/bb-storage/pkg/filesystem/path"
 
 	"google.golang.org/grpc/codes"
 	"google.golang.org/grpc/status"
@@ -116,6 +117,8 @@ type gatedBase struct {
 }
 
 type readerKey struct{}
+
+type passThroughKey struct{}
 
 func (g *gatedBase) park(ctx context.Context) error {
 	g.mu.Lock()
@@ -669,9 +672,15 @@ func (x *run) create() {
 	d := time.Duration(x.c.Timeout) * unit
 	switch x.c.Kind {
 	case "context":
-		parent, pc := context.WithCancel(context.Background())
+		parent, pc := context.WithCancel(context.WithValue(context.Background(), passThroughKey{}, x.c.Idx))
 		x.parentCancel = pc
 		x.ctx, x.cancel = x.sc.NewContextWithTimeout(parent, d)
+		if v, _ := x.ctx.Value(passThroughKey{}).(int); v != x.c.Idx {
+			x.violation("context-hides-parent-values", "a value of the parent context is not visible through the context with timeout")
+		}
+		if now := x.sc.Now(); !now.Equal(x.at(x.nowU)) {
+			x.violation("suspendable-clock-now-differs-from-base", fmt.Sprintf("%v vs %v", now, x.at(x.nowU)))
+		}
 	case "timer":
 		x.timer, x.timerCh = x.sc.NewTimer(d)
 	case "executor":
@@ -1110,4 +1119,43 @@ func (x *run) finishExecutor(cause string) {
 	if ved == nil || ved.AsDuration() != time.Duration(ran)*unit {
 		x.violation("virtual-execution-duration-wrong cause="+cause, fmt.Sprintf("virtual_execution_duration=%v, the command ran %v unsuspended", ved.AsDuration(), time.Duration(ran)*unit))
 	}
+}
+
+// invalidTimeoutCase: an action whose timeout is absent or malformed must be
+// rejected instead of running unbounded; neither a build directory nor the
+// runner is touched.
+func invalidTimeoutCase(r *ev.Run, i int) {
+	r.Case("invalid-timeout %d", i)
+	clk := vclock.New(1000)
+	sc := re_clock.NewSuspendableClock(clk, 10*unit, unit)
+	store := wexec.NewCAS()
+	var touched atomic.Int64
+	runner := &wexec.Runner{RunFunc: func(ctx context.Context, req *runner_pb.RunRequest) (*runner_pb.RunResponse, error) {
+		touched.Add(1)
+		return &runner_pb.RunResponse{}, nil
+	}}
+	executor := builder.NewLocalBuildExecutor(store, untouchableCreator{&touched}, runner, sc, time.Hour, nil, 1<<20, nil, false)
+	timeouts := []*durationpb.Duration{nil, {Seconds: 3, Nanos: -1}, {Seconds: 1 << 50}, {Nanos: 2_000_000_000}}
+	to := timeouts[i%len(timeouts)]
+	action := &remoteexecution.Action{
+		CommandDigest:   store.PutProto(&remoteexecution.Command{Arguments: []string{"true"}}).GetProto(),
+		InputRootDigest: store.PutProto(&remoteexecution.Directory{}).GetProto(),
+		Timeout:         to,
+	}
+	updates := make(chan *remoteworker.CurrentState_Executing, 10)
+	resp := executor.Execute(context.Background(), nil, nil, wexec.DigestFunction, &remoteworker.DesiredState_Executing{ActionDigest: store.PutProto(action).GetProto(), Action: action}, updates)
+	code := codes.Code(resp.GetStatus().GetCode())
+	r.Situation("invalid-timeout-rejected")
+	if code != codes.InvalidArgument || touched.Load() != 0 || clk.Created() != 0 {
+		r.Violation("C11 invalid-timeout-not-rejected", fmt.Sprintf("timeout %v: status %v %q, build directory/runner touched %d times, %d base timers created", to, code, resp.GetStatus().GetMessage(), touched.Load(), clk.Created()),
+			map[string]any{"timeout": fmt.Sprint(to), "status": resp.GetStatus().String()})
+	}
+	r.Hash(ev.HashOf("invalid-timeout", i%len(timeouts), code), true)
+}
+
+type untouchableCreator struct{ touched *atomic.Int64 }
+
+func (c untouchableCreator) GetBuildDirectory(ctx context.Context, d *digest.Digest) (builder.BuildDirectory, *path.Trace, error) {
+	c.touched.Add(1)
+	return nil, nil, status.Error(codes.Internal, "must not be asked for a build directory")
 }
